@@ -531,9 +531,22 @@ fn run_step(vm: &mut Vm, step: &Step, case: &Case, out: &mut String) -> bool {
             };
             let _ = write!(
                 out,
-                "{{\"k\":\"intern\",\"same\":{},\"has_probe\":{},\"probe_same\":{},\"probe_bytes_equal\":{}}}",
+                "{{\"k\":\"intern\",\"same\":{},\"has_probe\":{},\"probe_same\":{},\"probe_bytes_equal\":{}",
                 same, has_probe, probe_same, probe_bytes_equal
             );
+            #[cfg(feature = "hooks")]
+            {
+                match vm.verif_audit_string_store() {
+                    Ok((entries, capacity)) => {
+                        let _ = write!(out, ",\"table_entries\":{},\"table_capacity\":{},\"table_audit\":\"ok\"", entries, capacity);
+                    }
+                    Err(what) => {
+                        out.push_str(",\"table_audit\":");
+                        json_str(out, &what);
+                    }
+                }
+            }
+            out.push('}');
             true
         }
         Step::Prefixes(text) => {
